@@ -14,10 +14,10 @@ package main
 
 import (
 	"fmt"
-	"os"
 	"go/constant"
 	"go/token"
 	"go/types"
+	"os"
 	"sort"
 	"strings"
 
@@ -33,12 +33,12 @@ const (
 )
 
 type pstate struct {
-	ct   uint8            // net bytes consumed since function entry (lower bound, saturating at 2)
-	rd   uint8            // reads from the underlying reader since function entry (exact below 2, 2 = two or more)
-	lc   []uint8          // per loop of the function
-	pend []bool           // per loop: header re-entered through the back edge without progress
-	deck tag              // tZero: empty, tNon: holds a non-zero byte
-	eof  tag              // tZero: not at eof, tNon: eof seen
+	ct   uint8   // net bytes consumed since function entry (lower bound, saturating at 2)
+	rd   uint8   // reads from the underlying reader since function entry (exact below 2, 2 = two or more)
+	lc   []uint8 // per loop of the function
+	pend []bool  // per loop: header re-entered through the back edge without progress
+	deck tag     // tZero: empty, tNon: holds a non-zero byte
+	eof  tag     // tZero: not at eof, tNon: eof seen
 	vals map[ssa.Value]tag
 	snap map[ssa.Value]uint8 // loads of p.line / p.col / p.onDeck: value of rd when loaded
 	ints map[ssa.Value]int64 // exactly known small integers (induction variables of constant loops, compared bytes)
@@ -212,6 +212,7 @@ type e4Engine struct {
 	blown    map[*ssa.Function]bool
 	readByte *ssa.Function
 	putBack  *ssa.Function
+	rawRead  map[*ssa.Function]bool // other (byte, error) functions that call Read on parser.reader themselves
 	collect  bool
 	nStates  int
 	relMemo  map[*ssa.Function]map[ssa.Value]bool
@@ -243,7 +244,66 @@ func newE4(c *Ctx) *e4Engine {
 	}
 	e.readByte = c.fn("(*parser).readByte")
 	e.putBack = c.fn("(*parser).putBack")
+	e.rawRead = map[*ssa.Function]bool{}
+	for fn := range e.scan {
+		if fn == e.readByte || !containsRawRead(fn) {
+			continue
+		}
+		res := fn.Signature.Results()
+		if res.Len() == 2 && returnsByte(fn) && isErrorType(res.At(1).Type()) {
+			e.rawRead[fn] = true
+		}
+	}
 	return e
+}
+
+// containsRawRead: fn calls Read on the parser's reader field itself.
+func containsRawRead(fn *ssa.Function) bool {
+	for _, ci := range callsIn(fn) {
+		if isRawRead(ci) {
+			return true
+		}
+	}
+	return false
+}
+
+func isRawRead(ci ssa.CallInstruction) bool {
+	cm := ci.Common()
+	if !cm.IsInvoke() || cm.Method.Name() != "Read" {
+		return false
+	}
+	_, o, f, ok := loadOfField(cm.Value)
+	return ok && o == "parser" && f == "reader"
+}
+
+// rawReadLoop: the loop retries the raw read.
+func rawReadLoop(l *loopInfo) bool {
+	for b := range l.body {
+		for _, in := range b.Instrs {
+			if ci, ok := in.(ssa.CallInstruction); ok && isRawRead(ci) {
+				return true
+			}
+		}
+	}
+	return false
+}
+
+// primitive outcomes of a raw read helper (readByte without the lookahead byte): the deck is not touched.
+func rawReadOutcomes(deck, eof tag) []outcome {
+	var out []outcome
+	if eof != tZero {
+		out = append(out, outcome{c: 0, deck: deck, eof: tNon, res: []tag{tZero, tZero}, d0eq: -1, sameDeck: true})
+	}
+	if eof != tNon {
+		out = append(out,
+			outcome{c: 1, rd: 1, deck: deck, eof: tZero, res: []tag{tNon, tZero}, d0eq: -1, sameDeck: true},
+			outcome{c: 1, rd: 1, deck: deck, eof: tZero, res: []tag{tZero, tZero}, d0eq: -1, sameDeck: true},
+			outcome{c: 0, rd: 0, deck: deck, eof: tNon, res: []tag{tZero, tZero}, d0eq: -1, sameDeck: true},
+			outcome{c: 1, rd: 1, deck: deck, eof: tNon, res: []tag{tNon, tZero}, d0eq: -1, sameDeck: true},
+			outcome{c: 0, rd: 0, deck: deck, eof: tZero, res: []tag{tZero, tNon}, d0eq: -1, sameDeck: true},
+		)
+	}
+	return out
 }
 
 func tagOfType(t types.Type) bool {
@@ -1033,6 +1093,14 @@ func (e *e4Engine) call(fn *ssa.Function, s *pstate, call *ssa.Call) []*pstate {
 			}
 		}
 		return out
+	case cal != nil && e.rawRead[cal]:
+		var out []*pstate
+		for _, o := range rawReadOutcomes(s.deck, s.eof) {
+			if ns := apply(o); ns != nil {
+				out = append(out, ns)
+			}
+		}
+		return out
 	case cal != nil && cal == e.putBack:
 		arg := tAny
 		var av ssa.Value
@@ -1122,7 +1190,7 @@ func (e *e4Engine) call(fn *ssa.Function, s *pstate, call *ssa.Call) []*pstate {
 func (e *e4Engine) run() {
 	var fns []*ssa.Function
 	for f := range e.scan {
-		if f != e.readByte && f != e.putBack {
+		if f != e.readByte && f != e.putBack && !e.rawRead[f] {
 			fns = append(fns, f)
 		}
 	}
@@ -1152,7 +1220,7 @@ func (e *e4Engine) run() {
 			return ks[i].eof < ks[j].eof
 		})
 		for _, k := range ks {
-			if k.fn == e.readByte || k.fn == e.putBack {
+			if k.fn == e.readByte || k.fn == e.putBack || e.rawRead[k.fn] {
 				continue
 			}
 			e.analyse(k.fn, k.deck, k.eof)
